@@ -20,7 +20,7 @@ CHECKS = {
         "DESIGN.md §4 C07",
     ),
     "C09": (
-        "exhaustive enumeration: all dates x month offsets (-40..=40 quick, -400..=400 thorough, plus range-reaching and limit offsets) x 3 types x add/sub against floor-division month arithmetic",
+        "exhaustive enumeration: all dates x month offsets (-40..=40 quick, -400..=400 thorough, plus range-reaching and limit offsets) x 3 types x add/sub against floor-division month arithmetic; the complete space of year-month intervals (all 4,272,000,001) on 2 anchor dates (thorough: 4)",
         "For every date, every offset of the bound and both directions, on Date, Timestamp (rotating critical times) and OracleDate, the real result is compared with floor-division month arithmetic: same day of month and time of day, or an error exactly when the target month lacks the day or the year leaves 1..9999; last-day-of-month is checked for every date on the three types.",
         "Trusted: reference month arithmetic (12*y+m-1+k by floor division) and month-length rule. Offsets outside the stated bound are covered only by the per-date range-reaching / limit / seed-derived offsets.",
         "DESIGN.md §4 C09",
@@ -71,7 +71,7 @@ CHECKS = {
     "C16": (
         "exhaustive enumeration of all dates x whole-second critical times x 5 sub-second parts for the conversions; BFS closure with the whole-second invariant on every Oracle-date result; pool cross products; exact-rational nearest-second and correctly-rounded-double oracles",
         "Every conversion of a timestamp to the Oracle-style date (all dates, critical seconds, sub-second 0/1/499999/500000/999999, also before 1970) must floor to the second; every Oracle-style date produced anywhere in the op-table closure must be a whole second inside the range and equal the exact reference where one exists; adding intervals must equal the timestamp result floored; add_days/sub_days (and the Timestamp::oracle_* variants) must be the nearest second of the exact-rational timestamp result at base dates over the whole range; sub_date must be the correctly rounded quotient for pool^2 and all dates against first/epoch/last. The raw constructor may reject an instant with a sub-second part or floor it; fractional-day sums that lie less than half a second before the first instant may fail or round to the first second (both admitted by the wording).",
-        "Trusted: exact.rs; day-offset alphabet and base dates are a subset of the f64 x i64 space.",
+        "Trusted: exact.rs; day-offset alphabet and base dates are a subset of the f64 x i64 space. One small sub-check (OracleDate::now() and TryFrom<Time> under 210 injected clocks with sub-second parts) uses the verif-hooks clock override.",
         "DESIGN.md §4 C16",
     ),
     "C17": (
@@ -94,7 +94,7 @@ CHECKS = {
         "DESIGN.md §4 C05",
     ),
     "C19": (
-        "bounded language enumeration: every string of length <= 5 (thorough 6) over a 40-symbol alphabet, every token spelling at positions 34..38, rotations of the token list up to 40 tokens, blank runs of every length 1..=600, against a reference longest-match tokenizer through a probe rendering",
+        "bounded language enumeration: every string of length <= 5 (thorough 6) over a 40-symbol alphabet, every token spelling at positions 34..38, rotations of the token list up to 40 tokens, blank runs of every length 1..=600, against a reference longest-match tokenizer through a probe rendering; every ASCII character and 11 non-ASCII ones in six picture contexts, every ASCII pair in two",
         "Each string is compiled by the real Formatter::try_new; it must be accepted iff the reference tokenizer splits it into at most 36 documented tokens, rejection must be Error::InvalidFormat, and on acceptance the text produced for a probe timestamp with pairwise distinct field renderings must equal the reference rendering of the reference token sequence — which identifies the token sequence, the name style chosen from the first two letters and the blank-run length.",
         "Trusted: refmodel tokenizer/renderer. The lexer looks ahead at most 5 bytes and carries no state between tokens, so length <= 6 covers every first-token decision with every following byte; longer pictures are covered by the bounded token language (all sequences of <= 6 / 7 tokens over an 18-token alphabet), the well-known pictures in five letter-case variants through each type's own entry point, and the blank-run families (every length to 600, powers of two to 2^17 / 2^22).",
         "DESIGN.md §4 C19",
@@ -114,7 +114,7 @@ CHECKS = {
     ),
     "C15": (
         "exhaustive enumeration: all dates (Date, OracleDate x 3 times), all seconds, timestamps every 86,399.999983 s across the range, boundary pools of all types through serde_json and bincode; raw-integer limits through bincode; complete single-edit neighbourhood of canonical JSON strings",
-        "Every enumerated value is serialized and deserialized in both forms by the real code: identity, the human-readable text equals the fixed layout rendered by the reference, the binary form equals the raw count; every raw integer at the range limits +/-1 and the integer extremes (and sub-second payloads for the Oracle-style date) must decode to the same in-range value or fail; every single substitution / deletion / insertion of 20 symbols at every position of canonical strings, plus JSON numbers / null / booleans / empty string, must fail or yield an in-range value. A payload that is not the encoding of a value (out-of-range or sub-second raw count, integer of another width) must fail or yield a value inside the documented range - whole seconds for the Oracle-style date - exactly as the property states; that it must not be a wrapped or clamped number is C02's statement and is decided there.",
+        "Every enumerated value is serialized and deserialized in both forms by the real code: identity, the human-readable text equals the fixed layout rendered by the reference, the binary form equals the raw count; every raw integer at the range limits +/-1 and the integer extremes (and sub-second payloads for the Oracle-style date) must decode to the same in-range value or fail; every single substitution / deletion / insertion of 20 symbols at every position of canonical strings, plus JSON numbers / null / booleans / empty string, must fail or yield an in-range value. A payload that is not the encoding of a value (out-of-range or sub-second raw count, integer of another width) must fail or yield a value inside the documented range - whole seconds for the Oracle-style date - exactly as the property states; that it must not be a wrapped or clamped number is C02's statement and is decided there. Long malformed non-ASCII strings (every byte alignment of every cut-off up to 288 bytes) must fail or decode in range, never panic.",
         "Trusted: serde_json, bincode (default fixed-width little-endian configuration), serde's value deserializers, reference renderer. Decoding also goes through from_value, from_reader, escaped strings, containers (Vec, Option, map value, map key, tuple) and typed scalars of every integer width. Multi-edit malformed strings are not enumerated.",
         "DESIGN.md §4 C15",
     ),
